@@ -110,9 +110,14 @@ func prctl(option uintptr, args ...uintptr) error {
 
 // seccomp syscall wrapper.
 func seccomp(op uintptr, flags FilterFlag, uargs unsafe.Pointer) error {
-	_, _, e := syscall.Syscall(unix.SYS_SECCOMP, op, uintptr(flags), uintptr(uargs))
+	r, _, e := syscall.Syscall(unix.SYS_SECCOMP, op, uintptr(flags), uintptr(uargs))
 	if e != 0 {
 		return e
+	}
+	if flags&FilterFlagTSync != 0 && r != 0 {
+		// The kernel does not attach the filter to any thread if one of the threads
+		// cannot be synchronized, and returns the ID of that thread instead of an errno.
+		return fmt.Errorf("thread %d could not be synchronized to the filter", r)
 	}
 	return nil
 }
